@@ -168,6 +168,12 @@ class Fixture:
     def __init__(self, rng, n=14):
         self.rng = rng
         self.keys = [sa.Key(rng) for _ in range(n)]
+        self._style = 0
+
+    def next_style(self):
+        """command-line styles in turn (deterministic cycling, so that every style meets every shape)"""
+        self._style += 1
+        return sa.STYLES[self._style % len(sa.STYLES)]
 
     def key(self):
         return self.rng.choice(self.keys)
@@ -257,6 +263,8 @@ def sources(b, rng):
     return ["api", "file"] + (["signapp"] if can_signapp else [])
 
 
+OTHER_PATHS_A = ("m/44'/60'/0'/0/1", "m/44'/60'/0'/0/2", "m/44'/60'/1'/0/0", "m/44'/60'/0'/1/0")
+OTHER_PATHS_B = ("m/44'/137'/0'/0/0", "m/44'/1'/0'/0/0", "m/44'/0'/0'/0/0", "m/44'/137'/1'/0/0", "m/0/1/2/3/4")
 ACCEPTED_SPELLINGS = ("upper", "mixed", "lead_ws", "trail_ws", "inner_ws", "trail_nl")
 BAD_ITER_ARGS = ("65536", "70000", "0x10000", "abc", "1.5", "0b1", "")
 
@@ -316,7 +324,7 @@ def run_behaviour(ctx, fx, b, tag, src):
     for si, st in enumerate(steps if cont else []):
         an = 65536 if st["args"] == "bad_iter" else n0 + (st["an"] - 258)
         stepn.append(an)
-        if not st["ok"]:
+        if not st["ok"] or st["op"] == "eth_pub":
             continue
         if st["op"] == "message":
             cur_ver, items = (st["ah"], an), []
@@ -341,18 +349,27 @@ def run_behaviour(ctx, fx, b, tag, src):
         signers, auth, thr = {i + 1: (hkeys[i], "valid") for i in range(total)}, [], 1
     else:
         signers, auth, thr = plan_exchange(fx, rng, h, n, total, k, tool_positions)
-    # signapp eth: in a third of the cases the Ethereum app's (r, s) has a short member
-    eth_opts = {}
-    for i, it in enumerate(items):
-        if it[0] == "step" and steps[it[1]]["op"] == "eth":
-            eth_opts[it[1]] = rng.random() < 0.4
-            if rng.random() < 0.34:
-                v = ver_at.get(it, cur_ver)
-                nk = sa.short_value_key(rng, sa.oracle_digest(sha[v[0]], v[1]), high_s=eth_opts[it[1]])
-                if nk is not None:
-                    old_key, kind = signers[i + 1]
-                    signers[i + 1] = (nk, kind)
-                    auth = [nk.pub if a == old_key.pub else a for a in auth]
+    # signapp eth / eth -b: an Ethereum app (seed) with one key per path, the path the operator selects;
+    # in a third of the signing cases the app's (r, s) has a short member
+    eth_cfg = {}
+    pos_of = {it: i + 1 for i, it in enumerate(items)}
+    for si, st in enumerate(steps if cont else []):
+        if st["op"] not in ("eth", "eth_pub"):
+            continue
+        sel = {"absent": None, "default": sa.DEFAULT_ETH_PATH,
+               "other_a": rng.choice(OTHER_PATHS_A), "other_b": rng.choice(OTHER_PATHS_B)}[st["pth"]]
+        high_s = rng.random() < 0.4
+        seed = bytes(rng.getrandbits(8) for _ in range(16))
+        it = ("step", si)
+        if st["op"] == "eth" and rng.random() < 0.34:
+            v = ver_at.get(it, cur_ver)
+            seed = sa.short_value_seed(rng, sa.oracle_digest(sha[v[0]], v[1]), sel, high_s=high_s) or seed
+        eth_cfg[si] = {"seed": seed.hex(), "path": sel, "high_s": high_s}
+        if it in pos_of:
+            nk = sa.eth_key(seed, sel)
+            old_key, kind = signers[pos_of[it]]
+            signers[pos_of[it]] = (nk, kind)
+            auth = [nk.pub if a == old_key.pub else a for a in auth]
     who = {it: signers[i + 1] for i, it in enumerate(items)}
 
     def signer_of(item):
@@ -376,10 +393,8 @@ def run_behaviour(ctx, fx, b, tag, src):
             t["args"] = {"app": st["ah"], "iter": arg_text(st["args"], stepn[si], rng)}
         if op == "key":
             t.update({"op": "key", "key": signer_of(item)[0].raw.hex()})
-        elif op == "eth":
-            t.update({"op": "eth", "key": signer_of(item)[0].raw.hex(),
-                      "high_s": eth_opts.get(si, rng.random() < 0.4),
-                      "path": rng.choice((None, "m/44'/60'/0'/0/0", "m/44'/137'/0'/0/1"))})
+        elif op in ("eth", "eth_pub"):
+            t.update(dict(eth_cfg[si], op=op))
         elif op == "message":
             t.update({"op": "message"})
         else:
@@ -390,6 +405,8 @@ def run_behaviour(ctx, fx, b, tag, src):
             elif op == "manual_bad":
                 g = sa.malform(bytes.fromhex(g), rng.choice(sa.MALFORMED_KINDS), rng)
             t.update({"op": "manual", "sig": g})
+        t["shape"] = {"style": e["style"] if len(steps) == 1 and e["style"] in sa.STYLES else fx.next_style(),
+                      "seed": rng.getrandbits(30)}
         tools.append(t)
         if st["ok"] and (op == "message" or (op in ("key", "eth") and st["file"] == "absent")):
             track = (st["ah"], stepn[si])
@@ -403,6 +420,9 @@ def run_behaviour(ctx, fx, b, tag, src):
                    "roundtrip": cont, "device": {"authorizers": [a.hex() for a in auth], "threshold": thr,
                                                  "cur": cur},
                    "via": rng.choice(("admin", "dongle"))})
+    recipe["admin_shape"] = {"style": fx.next_style(), "seed": rng.getrandbits(30)}
+    desc["steps"] = [[st["op"], st["args"], st["file"], st["pth"]] for st in steps]
+    desc["styles"] = [t["shape"]["style"] for t in tools]
     if history:
         recipe["device"] = None
         recipe["history"] = history_ops(fx, rng, e["ops"], [signers[i + 1][0] for i in range(total)], h, n,
@@ -468,6 +488,8 @@ def run_admin_twice(ctx, fx, tag):
     d1 = device_for(keys[:m], k1, rng.choice(("below", "below", "notbelow")) if k1 == 99 else "below", n, rng,
                     keys[m:])
     d2 = {"same": True} if same else device_for(keys[:m], k2, "below", n, rng, keys[m:])
+    for d in (d1, d2):
+        d["shape"] = {"style": fx.next_style(), "seed": rng.getrandbits(30)}
     recipe = {"src": "file", "hash": hash_rec(hin), "iter": {"form": "int", "val": n, "s": ""}, "sigs": sigs,
               "tools": [], "roundtrip": False, "device": None, "admin_twice": [d1, d2]}
     evs, info = sa.execute(recipe, ctx.scratch, tag)
@@ -480,12 +502,14 @@ def run_admin_twice(ctx, fx, tag):
 def signature(clause, t, ev=None):
     """stable abstract signature: the clause and the classes of the parts it depends on"""
     d = t["desc"]
-    if ev is not None and ev.get("k") == "sign":
+    if ev is not None and ev.get("k") in ("sign", "pubkey"):
         st = t.get("failing_step")
         if st is not None:
             if clause == "RefusesMalformed" and st[0] == "manual_spell":
                 return "%s|manual-signature-spelling=%s" % (clause, d["kind"])
-            return "%s|step=%s args=%s file=%s" % (clause, st[0], st[1], st[2])
+            return "%s|step=%s args=%s file=%s%s" % (clause, st[0], st[1], st[2],
+                                                     " path=%s" % st[3] if len(st) > 3 and st[0] in ("eth", "eth_pub")
+                                                     else "")
         d = dict(d, tool=ev["via"], mut="none", spell=d.get("tool") == "manual_spell")
     if clause == "RefusesMalformed":
         part = {"hash": "hash=%s" % d["hcls"], "iter": "iteration=%s" % d["icls"],
@@ -497,7 +521,8 @@ def signature(clause, t, ev=None):
     if clause in ("AcceptsWellFormed", "IterationKept", "HashKept", "MessageText", "Eip191Wrap",
                   "Keccak256Digest", "SignaturesKept"):
         return "%s|hash=%s iteration=%s" % (clause, d["hcls"], d["icls"])
-    if clause in ("SignatureVerifies", "SignatureAdded", "SignatureWellFormed"):
+    if clause in ("SignatureVerifies", "SignatureAdded", "SignatureWellFormed", "SelectedPathUsed",
+                  "PublicKeyOfSelectedPath", "FileNamesItsVersion"):
         return "%s|tool=%s" % (clause, d.get("tool"))
     if clause in ("RoundTrip", "RoundTripStable"):
         return "%s|hash=%s iteration=%s m=%s" % (clause, d["hcls"], d["icls"], d["m"])
@@ -597,8 +622,10 @@ def run_random(ctx, fx, tag):
             if t == "key":
                 tools.append({"op": "key", "key": rng.choice(authk + [sa.Key(rng)]).raw.hex()})
             elif t == "eth":
-                tools.append({"op": "eth", "key": rng.choice(authk).raw.hex(), "high_s": rng.random() < 0.4,
-                              "path": None})
+                tools.append({"op": "eth", "seed": bytes(rng.getrandbits(8) for _ in range(16)).hex(),
+                              "high_s": rng.random() < 0.4,
+                              "path": rng.choice((None, sa.DEFAULT_ETH_PATH) + OTHER_PATHS_A + OTHER_PATHS_B),
+                              "shape": {"style": fx.next_style(), "seed": rng.getrandbits(30)}})
             elif t == "manual_ok":
                 tools.append({"op": "manual", "sig": make_sig(rng.choice(authk), "valid", h, n, rng)})
             else:
@@ -607,8 +634,10 @@ def run_random(ctx, fx, tag):
                               "sig": sa.malform(bytes.fromhex(s), rng.choice(sa.MALFORMED_KINDS), rng)})
     cur = rng.choice((0, 0, 0, max(0, n - 1), max(0, n - 1), n, rng.randrange(65536)))
     desc["cur"] = "below" if cur < n else "notbelow"
+    for t in tools:
+        t.setdefault("shape", {"style": fx.next_style(), "seed": rng.getrandbits(30)})
     recipe = {"src": rng.choice(("api", "file")), "hash": hash_rec(hin), "iter": iter_rec(iin), "sigs": sigs,
-              "tools": tools, "roundtrip": good,
+              "tools": tools, "roundtrip": good, "admin_shape": {"style": fx.next_style(), "seed": rng.getrandbits(30)},
               "device": {"authorizers": [k.pub.hex() for k in authk], "threshold": thr, "cur": cur},
               "via": rng.choice(("admin", "dongle"))}
     evs, info = sa.execute(recipe, ctx.scratch, tag)
@@ -670,7 +699,9 @@ def select(ctx, behaviours, quota):
                 ("nsteps", e["mut"], len(e["steps"]))] + [
                 ("ops",) + tuple((o["op"], "never" if o["k"] == 99 else "first" if o["k"] == 1 else "last", o["cur"])
                                  for o in e["ops"][:2]) + (len(e["ops"]), e["m"] > 0)] + [
-                ("step", i, st["op"], st["args"], st["file"], st["ok"]) for i, st in enumerate(e["steps"])] + [
+                ("step", i, st["op"], st["args"], st["file"], st["ok"], st["pth"])
+                for i, st in enumerate(e["steps"])] + [
+                ("style", e["style"], e["steps"][0]["op"], e["steps"][0]["pth"]) for _ in e["steps"][:1]] + [
                 ("pair", e["steps"][i]["op"], e["steps"][i]["args"], e["steps"][i + 1]["op"],
                  e["steps"][i + 1]["args"]) for i in range(len(e["steps"]) - 1) if i == 0] + [
                 ("k", e["m"], e["k"], e["cur"])]
@@ -758,6 +789,18 @@ def corruptions(traces):
         e = copy.deepcopy(t["ev"])
         [x for x in e if x["k"] == "sign" and x["via"] in ("key", "eth") and x["ok"] == "t"][0]["verifies"] = "f"
         add(t, e, "SignatureVerifies", "tool signature does not verify")
+    t = first(lambda t: any(x["k"] == "sign" and x["via"] == "eth" and x["ok"] == "t" and x["paths"]
+                            for x in t["ev"]))
+    if t:
+        e = copy.deepcopy(t["ev"])
+        x = [x for x in e if x["k"] == "sign" and x["via"] == "eth" and x["ok"] == "t" and x["paths"]][0]
+        x["paths"][-1][-1] ^= 1
+        add(t, e, "SelectedPathUsed", "the signing request names another derivation path")
+    t = first(lambda t: any(x["k"] == "pubkey" and x["ok"] == "t" for x in t["ev"]))
+    if t:
+        e = copy.deepcopy(t["ev"])
+        [x for x in e if x["k"] == "pubkey"][0]["saved"][-1] ^= 1
+        add(t, e, "PublicKeyOfSelectedPath", "the saved public key is not the selected path's")
     t = first(lambda t: any(x["k"] == "content" and len(x["sigs"]) >= 1 for x in t["ev"]))
     if t:
         e = copy.deepcopy(t["ev"])
@@ -830,8 +873,8 @@ def judge(res, traces, shards):
             d = t["descs"][max(0, min(len(t["descs"]) - 1, v.get("at", 1) - 1))]
             tt = {"desc": dict(d, mut="none", kind="?"), "input": d}
         at = v.get("at", 0)
-        if "steps" in tt["desc"] and 0 < at <= len(t["ev"]) and t["ev"][at - 1]["k"] == "sign":
-            si = sum(1 for x in t["ev"][:at] if x["k"] == "sign") - 1
+        if "steps" in tt["desc"] and 0 < at <= len(t["ev"]) and t["ev"][at - 1]["k"] in ("sign", "pubkey"):
+            si = sum(1 for x in t["ev"][:at] if x["k"] in ("sign", "pubkey")) - 1
             if si < len(tt["desc"]["steps"]):
                 tt = dict(tt, failing_step=tt["desc"]["steps"][si])
         if "ops" in tt["desc"] and 0 < at <= len(t["ev"]):
@@ -881,7 +924,9 @@ def run(ctx):
     # 1. design check, exhaustive (+ the negative configuration, concurrently)
     import concurrent.futures as cf
     with cf.ThreadPoolExecutor(max_workers=3) as ex:
-        f_mc = ex.submit(tlc.check, "SignerAuth", "MC_SignerAuth.cfg", coverage=True, workers=4)
+        # per-action coverage statistics cost TLC about a third more: thorough tier only; in the quick
+        # tier "every action taken" is read off the generated behaviours below
+        f_mc = ex.submit(tlc.check, "SignerAuth", "MC_SignerAuth.cfg", coverage=not ctx.quick, workers=4)
         f_neg = ex.submit(tlc.run, "SignerAuth", "Neg_SignerAuth.cfg", workers=1)
         f_gen = ex.submit(tlc.generate, "GenSignerAuth", "Gen_SignerAuth.cfg")
         r, rn = f_mc.result(), f_neg.result()
@@ -890,8 +935,22 @@ def run(ctx):
         raise core.MachineryError("SignerAuth model violates %s — reproduce on the code before reporting"
                                   % r.violated)
     res.add_tlc(r, "MC_SignerAuth exhaustive")
-    counts = r.action_counts()
-    never = [a for a in ACTIONS if counts.get(a, 0) == 0]
+    if ctx.quick:
+        hs = [set(b["hist"]) for b in behaviours]
+        taken = {"Build": bool(behaviours),
+                 "RefusedAuthorize": any(b["built"] == "refused" for b in behaviours),
+                 "Step": any(b["env"]["steps"] for b in behaviours),
+                 "StepsDone": any(not b["env"]["steps"] and b["built"] == "built" for b in behaviours),
+                 "RoundTrip": any("roundtrip" in h for h in hs), "SigVer": any("apdu" in h for h in hs),
+                 "SendSig": any(b["sent"] > 1 for b in behaviours), "Finish": any("outcome" in h for h in hs),
+                 "AfterAuth": any(b["done"] for b in behaviours),
+                 "StartHistory": any(b["env"]["mode"] == "history" for b in behaviours),
+                 "HOp": any(b["env"]["ops"] for b in behaviours),
+                 "HistDone": any(len(b["env"]["ops"]) >= 2 for b in behaviours)}
+        never = [a for a in ACTIONS if not taken.get(a)]
+    else:
+        counts = r.action_counts()
+        never = [a for a in ACTIONS if counts.get(a, 0) == 0]
     if never:
         raise core.MachineryError("vacuity: actions never taken: %s" % never)
     res.coverage["uncovered_actions"] = never
